@@ -30,6 +30,8 @@ PLANS = {
         leg("bigalloc", leg="bigalloc", batches={"quick": 1, "thorough": 3}, parallel=3, workers=1),
         # client calls after / around hostile-but-parseable server bytes (mid-message packet size change, login negotiation replies)
         leg("state", leg="state", workers=1),
+        # memory still held after many small responses were received and consumed (own process: live-heap measurement)
+        leg("retain", leg="retain", workers=1),
     ]},
     "C11": {"level": "exploration", "exhaustive": False, "legs": [leg("main"), leg("race", flavour="race", tiers=("thorough",), env={"VERIF_SMALL": "1"})]},
     "C12": {"level": "exploration", "exhaustive": False, "replay_flavour": "race",
